@@ -1,8 +1,8 @@
 //@ assume: DataFile / LeafSet / PruneList are abstract with two uninterpreted readings each, `pending()` (what reads through this instance see) and `flushed()` (what is durable on disk); assumed contracts: flush() returning Ok makes flushed == pending (AppendOnlyFile::flush: truncate, append, fsync; LeafSet/PruneList::flush: through save_via_temp_file, whose step order is proved in C09/save_via_temp) and changes neither on Err beyond what the OS guarantees (nothing assumed); replace_with_tmp() swaps in the compacted copy (proved in C08/replace_with_tmp). std::result::Result::and is specified by its documented meaning (assume_specification).
-//@ assume: T6: the trailing `.map_err(|e| { io::Error::new(.., format!(..)) })` of sync is re-addressed to `.map_err_io(..)` over the closure replaced by a unit value (the closure only re-words the error); PruneList::new(Some(self.data_dir.join(PMMR_PRUN_FILE)), bitmap) => PruneList::new_at(&self.data_dir, bitmap); log macros removed (T3). The tail of check_compact (from the replacement of the two files to the end) is lifted as a function of `self` and the removed-leaves bitmap (`tail` directive); its first half (computing what to remove and writing the two temp files) is iterator / macro code outside the subset and is NOT decided.
-//@ assume: decided here (C09, durable write order at the MMR back end): PMMRBackend::sync returns Ok ONLY IF the hash file, the data file, the leaf set (prunable back ends) and the prune list were ALL flushed successfully -- txhashset::extending treats an Ok sync as 'the MMR files are on disk' before the enclosing LMDB batch commits; the tail of check_compact replaces the hash file and the data file by their compacted copies, THEN rebuilds the prune list from the old roots plus the removed leaves and flushes it, THEN flushes the leaf set, in this order, and returns Ok(true) only if every step succeeded. Whether that order is itself crash-safe (a kill between the file swap and the prune-list flush) is NOT decided.
-//@ assumed_items: 15
-//@ fns: PMMRBackend::sync, PMMRBackend::sync_leaf_set, PMMRBackend::check_compact (tail)
+//@ assume: T6: the trailing `.map_err(|e| { io::Error::new(.., format!(..)) })` of sync is re-addressed to `.map_err_io(..)` over the closure replaced by a unit value (the closure only re-words the error); PruneList::new(Some(self.data_dir.join(PMMR_PRUN_FILE)), bitmap) => PruneList::new_at(&self.data_dir, bitmap); log macros removed (T3). In check_compact the four closures that compute WHICH positions to drop (map_vec! bodies and the leaf filter) are replaced by opaque values and the macro / iterator expressions around them by abstract helpers (`map_vec!(pos_to_rm, ..)` => shifted_hash_positions(..) etc.): what is removed is NOT decided here, only the order of the durable steps; `assert!(self.prunable, ..)` => check_prunable.
+//@ assume: decided here (C09, durable write order at the MMR back end): PMMRBackend::sync returns Ok ONLY IF the hash file, the data file, the leaf set (prunable back ends) and the prune list were ALL flushed successfully -- txhashset::extending treats an Ok sync as 'the MMR files are on disk' before the enclosing LMDB batch commits; check_compact writes BOTH compacted temp copies (hash file, data file) BEFORE it replaces either live file -- all the failure-prone bulk writing is over before the first swap --, then replaces the hash file, then the data file, THEN rebuilds the prune list from the old roots plus the removed leaves and flushes it, THEN flushes the leaf set, in this order, and returns Ok(true) only if every step succeeded. Whether that order is itself crash-safe (a kill between the file swap and the prune-list flush) is NOT decided.
+//@ assumed_items: 21
+//@ fns: PMMRBackend::sync, PMMRBackend::sync_leaf_set, PMMRBackend::check_compact
 pub mod io {
     pub struct Error { pub k: u8 }
     pub type Result<T> = std::result::Result<T, Error>;
@@ -25,6 +25,15 @@ pub struct Bitmap { _p: u8 }
 #[verifier::external_body]
 pub struct PathBuf { _p: u8 }
 pub uninterp spec fn sp_bits(b: Bitmap) -> Set<int>;
+pub uninterp spec fn sp_leaves_removed(b: PMMRBackend, cutoff_pos: u64, rewind_rm_pos: Bitmap) -> Bitmap;
+#[verifier::external_body]
+pub fn check_prunable(p: bool) { unimplemented!() }
+#[verifier::external_body]
+pub fn shifted_hash_positions(b: &Bitmap) -> (r: Vec<u64>) { unimplemented!() }
+#[verifier::external_body]
+pub fn leaf_positions_of(b: &Bitmap) -> (r: Vec<u64>) { unimplemented!() }
+#[verifier::external_body]
+pub fn shifted_leaf_positions(v: &Vec<u64>) -> (r: Vec<u64>) { unimplemented!() }
 impl Bitmap {
     #[verifier::external_body]
     pub fn or_inplace(&mut self, o: &Bitmap) ensures sp_bits(*final(self)) == sp_bits(*old(self)).union(sp_bits(*o)) { unimplemented!() }
@@ -37,6 +46,8 @@ impl DataFile {
     pub fn flush(&mut self) -> (r: io::Result<()>) ensures r.is_ok() ==> final(self).flushed() == old(self).pending() && final(self).pending() == old(self).pending() { unimplemented!() }
     #[verifier::external_body]
     pub fn replace_with_tmp(&mut self) -> (r: io::Result<()>) ensures r.is_ok() ==> final(self).flushed() == old(self).tmp() && final(self).pending() == old(self).tmp() { unimplemented!() }
+    #[verifier::external_body]
+    pub fn write_tmp_pruned(&mut self, pos: &Vec<u64>) -> (r: io::Result<()>) ensures final(self).flushed() == old(self).flushed(), final(self).pending() == old(self).pending() { unimplemented!() }
 }
 impl LeafSet {
     pub uninterp spec fn pending(&self) -> Set<int>;
@@ -55,11 +66,14 @@ impl PruneList {
     pub fn new_at(dir: &PathBuf, bitmap: Bitmap) -> (r: PruneList) ensures r.pending() == sp_bits(bitmap) { unimplemented!() }
 }
 pub struct PMMRBackend { pub data_dir: PathBuf, pub prunable: bool, pub hash_file: DataFile, pub data_file: DataFile, pub leaf_set: LeafSet, pub prune_list: PruneList,
-    /// ghost step counter of the compaction tail: 0 start, 1 hash file replaced, 2 data file replaced, 3 prune list flushed, 4 leaf set flushed
+    /// ghost step counter of a compaction: 0 start, 1 hash temp copy written, 2 data temp copy written, 3 hash file replaced, 4 data file replaced, 5 prune list flushed, 6 leaf set flushed
     pub step: Ghost<int> }
 impl PMMRBackend {
     #[verifier::external_body]
     fn clean_rewind_files(&self) -> (r: io::Result<u32>) { unimplemented!() }
+    /// the (leaves removed, positions to remove) selection: iterator code outside the subset, NOT decided here
+    #[verifier::external_body]
+    fn pos_to_rm(&self, cutoff_pos: u64, rewind_rm_pos: &Bitmap) -> (r: (Bitmap, Bitmap)) ensures r.0 == sp_leaves_removed(*self, cutoff_pos, *rewind_rm_pos) { unimplemented!() }
 //@ extract store/src/pmmr.rs :: impl PMMRBackend::sync_leaf_set
 //@   ensures:
 //@+    final(self).hash_file == old(self).hash_file, final(self).data_file == old(self).data_file, final(self).prune_list == old(self).prune_list, final(self).prunable == old(self).prunable,
@@ -78,23 +92,33 @@ impl PMMRBackend {
 //@ end
 //@ extract store/src/pmmr.rs :: impl PMMRBackend::check_compact
 //@   strip_logs
-//@   tail `// Replace hash and data files with compact copies.` lifted_as `fn check_compact_tail(&mut self, leaves_removed: Bitmap) -> io::Result<bool>`
+//@   closure 1 replaced_by `()`
+//@   closure 2 replaced_by `()`
+//@   eclosure 1 replaced_by `()`
+//@   eclosure 2 replaced_by `()`
+//@   rewrite `assert!(self.prunable, "Trying to compact a non-prunable PMMR");` => `check_prunable(self.prunable);` x?
+//@   rewrite `map_vec!(pos_to_rm, ())` => `shifted_hash_positions(&pos_to_rm)` x?
+//@   rewrite `map_vec!(leaf_pos_to_rm, ())` => `shifted_leaf_positions(&leaf_pos_to_rm)` x?
+//@   rewrite `pos_to_rm\n\t\t\t\t.iter()\n\t\t\t\t.map(())\n\t\t\t\t.filter(())\n\t\t\t\t.collect::<Vec<_>>()` => `leaf_positions_of(&pos_to_rm)` x?
 //@   rewrite `PruneList::new(Some(self.data_dir.join(PMMR_PRUN_FILE)), bitmap)` => `PruneList::new_at(&self.data_dir, bitmap)` x?
-//@   after? `self.hash_file.replace_with_tmp()?;`:
+//@   after? `self.hash_file.write_tmp_pruned(&pos_to_rm)?;`:
 //@+    proof { assert(self.step@ == 0); } self.step = Ghost(1);
-//@   after? `self.data_file.replace_with_tmp()?;`:
+//@   after? `self.data_file.write_tmp_pruned(&pos_to_rm)?;`:
 //@+    proof { assert(self.step@ == 1); } self.step = Ghost(2);
-//@   after? `self.prune_list.flush()?;`:
+//@   after? `self.hash_file.replace_with_tmp()?;`:
 //@+    proof { assert(self.step@ == 2); } self.step = Ghost(3);
-//@   after? `self.leaf_set.flush()?;`:
+//@   after? `self.data_file.replace_with_tmp()?;`:
 //@+    proof { assert(self.step@ == 3); } self.step = Ghost(4);
+//@   after? `self.prune_list.flush()?;`:
+//@+    proof { assert(self.step@ == 4); } self.step = Ghost(5);
+//@   after? `self.leaf_set.flush()?;`:
+//@+    proof { assert(self.step@ == 5); } self.step = Ghost(6);
 //@   requires:
 //@+    old(self).step@ == 0,
 //@   ensures:
-//@+    r.is_ok() ==> final(self).step@ == 4
-//@+        && final(self).hash_file.flushed() == old(self).hash_file.tmp() && final(self).data_file.flushed() == old(self).data_file.tmp()
+//@+    r.is_ok() ==> final(self).step@ == 6
 //@+        // the new prune list = old roots + the leaves removed by this compaction, and it is on disk
-//@+        && final(self).prune_list.flushed() == old(self).prune_list.pending().union(sp_bits(leaves_removed))
+//@+        && final(self).prune_list.flushed() == old(self).prune_list.pending().union(sp_bits(sp_leaves_removed(*old(self), cutoff_pos, *rewind_rm_pos)))
 //@+        && final(self).leaf_set.flushed() == old(self).leaf_set.pending(),
 //@ end
 }
